@@ -11,6 +11,8 @@
 (*    [ j, m |-> "srad", c, res ]                  (sorted radius answer)  *)
 (*    [ j, m |-> "cnt", c, n |-> count ]                                   *)
 (*    [ j, m |-> "pick", res |-> <<index>> ]       (C12: the chosen source)*)
+(*    [ j, m |-> "kset", k, res ]       (C12: support of the IDW weights)  *)
+(*    [ j, m |-> "ident", e, res |-> <<index>> ]   (C12: identity law)     *)
 (*                                                                         *)
 (* Plan  (before the implementation runs): prints for every case           *)
 (*    <<"P", id, lt, cls, descr, anti>>  ranks, distance-class indices,    *)
@@ -44,6 +46,14 @@ EntryFailed(lt, e) ==
                          \cup (IF RadNoneExtra(lt, e.c, res) THEN {} ELSE {"RadiusExtra"})
                          \cup (IF KnnNearestFirst(lt, res) THEN {} ELSE {"NearestFirst"})
       [] e.m = "cnt"  -> (IF e.n = Cardinality(WithinClass(lt, e.c)) THEN {} ELSE {"RadiusCount"})
+      \* C12, IDW: the support of the weights must be SOME exact k-nearest set (order free)
+      [] e.m = "kset" -> (IF KnnShape(Len(lt), e.k, res) THEN {} ELSE {"SupportShape"})
+                         \cup (IF KnnTrueNearest(lt, res) THEN {} ELSE {"SupportNotNearest"})
+      \* C12, identity law: destination point = source element e.e; judged when e.e is the
+      \* unique nearest element (no coincident elements)
+      [] e.m = "ident" -> (IF (e.e + 1 \in DOMAIN lt /\ lt[e.e + 1] = 0
+                               /\ Cardinality({ f \in DOMAIN lt : lt[f] = 0 }) = 1) => res = <<e.e>>
+                           THEN {} ELSE {"Identity"})
       [] OTHER        -> {"UnknownEntry"}
 
 Failed(r) ==
